@@ -1384,7 +1384,9 @@ def stage_shipped(ctx: Ctx, rng, per_file_seconds: int, deadline: float) -> None
         from fandango.evolution.algorithm import Fandango
         from fandango.evolution.evaluation import Evaluator
         from fandango.language.grammar import FuzzingMode
-        seen: dict[int, Any] = {}
+        snaps = Snaps()
+        for t in trees:
+            snaps.add(t)
         if grammar.fuzzing_mode == FuzzingMode.IO:
             run.count("shipped:io_mode_fuzz_only")
             try:
@@ -1395,8 +1397,8 @@ def stage_shipped(ctx: Ctx, rng, per_file_seconds: int, deadline: float) -> None
             continue
         o_eval = Evaluator.evaluate_individual
 
-        def evaluate_individual(self, individual, _seen=seen):
-            _seen.setdefault(id(individual), individual)
+        def evaluate_individual(self, individual, _snaps=snaps):
+            _snaps.add(individual)
             return o_eval(self, individual)
 
         Evaluator.evaluate_individual = evaluate_individual
@@ -1404,7 +1406,7 @@ def stage_shipped(ctx: Ctx, rng, per_file_seconds: int, deadline: float) -> None
             with contextlib.redirect_stderr(io.StringIO()), limit(per_file_seconds):
                 fan = Fandango(grammar, constraints, random_seed=rng.getrandbits(30), population_size=5, max_nodes=60)
                 for s in itertools.islice(fan.generate(max_generations=2), 5):
-                    seen.setdefault(id(s), s)
+                    snaps.add(s)
             run.count("shipped:evolution_ok")
         except Timeout:
             run.count("shipped:evolution_timeout")
@@ -1413,14 +1415,10 @@ def stage_shipped(ctx: Ctx, rng, per_file_seconds: int, deadline: float) -> None
         finally:
             Evaluator.evaluate_individual = o_eval
             nodes.MAX_REPETITIONS = cap0
-        tjs, ats = [], []
-        for t in trees + list(seen.values()):
-            try:
-                tj, at = gio.tree_to_json(t), fio.atree_json(t)
-                tjs.append(tj)
-                ats.append(at)
-            except NotModelled as e:
-                run.count("shipped:not_modelled:" + str(e)[:30])
+        for note in snaps.not_modelled:
+            run.count("shipped:not_modelled:" + note[:30])
+        tjs = [v[0] for v in snaps.by_key.values()]
+        ats = [v[1] for v in snaps.by_key.values()]
         ctx.queue_valid(gj, regexes, tjs, {"origin": "shipped", "spec": rel, "relaxed": sorted(relaxed)}, ats)
     ctx.flush_expand()
     ctx.flush_bound()
